@@ -157,6 +157,9 @@ type Sim struct {
 
 	Stats map[string]int
 	Log   []string // schedule decisions (macro steps) for determinism checks
+
+	RecordEvents bool
+	EvtLog       []byte
 }
 
 var S *Sim
@@ -197,10 +200,14 @@ func (s *Sim) ResetEvents() { s.mu.Lock(); s.evt = 0; s.mu.Unlock() }
 func (s *Sim) Events() int  { s.mu.Lock(); defer s.mu.Unlock(); return s.evt }
 
 // event is called by the driver for every countable event; it returns the fault kind to apply.
-func (s *Sim) event() FaultKind {
+// kind: 'b' begin, 's' statement, 'c' commit.
+func (s *Sim) event(kind byte) FaultKind {
 	s.mu.Lock()
 	defer s.mu.Unlock()
 	s.evt++
+	if s.RecordEvents {
+		s.EvtLog = append(s.EvtLog, kind)
+	}
 	if s.connLost {
 		return FaultConnLoss
 	}
@@ -454,7 +461,7 @@ func (c *yConn) BeginTx(ctx context.Context, opts driver.TxOptions) (driver.Tx, 
 	s := S
 	if s != nil {
 		s.Yield(ctx, "begin")
-		switch s.event() {
+		switch s.event('b') {
 		case FaultStmtErr, FaultCommitErr:
 			return nil, errInjected
 		case FaultConnLoss:
@@ -497,7 +504,7 @@ func (t *yTx) done() {
 func (t *yTx) Commit() error {
 	s := S
 	if s != nil {
-		switch s.event() {
+		switch s.event('c') {
 		case FaultStmtErr, FaultCommitErr:
 			_ = t.Tx.Rollback()
 			t.done()
@@ -541,7 +548,7 @@ func (c *yConn) pre(ctx context.Context) error {
 		s.Yield(ctx, "stmt")
 		s.doTick()
 	}
-	switch s.event() {
+	switch s.event('s') {
 	case FaultStmtErr, FaultCommitErr:
 		return errInjected
 	case FaultConnLoss:
